@@ -140,6 +140,8 @@ def core_valid(case, r, w):
     """combinations the README exhibits and whose result fits the field: must be accepted"""
     if r is None or not 0 <= r <= (1 << w) - 1:
         return False
+    if case["pos"] == "rmb" and r > 0x8000:
+        return False      # the program would not fit in the address space above $4000
     l, op, rt = case["l"], case["op"], case["r"]
     if case["pos"] in ("bra",) and l[0] not in ("LB", "LA") and (rt is None or rt[0] not in ("LB", "LA")):
         return False      # numeric branch targets are left open
@@ -166,7 +168,7 @@ def check_case(case):
     lines, idx = build(case)
     out = common.assemble_confirm(lines)
     w = WIDTH[pos]
-    cell = "{}|{}|{}|{}".format(pos, kind_tag(case["l"]), case["op"] or "-", kind_tag(case["r"]))
+    cell = "{}|{}|{}|{}".format(pos, kind_tag(case["l"]), case["op"] or "single", kind_tag(case["r"]))
     res = {"outcome": out["kind"], "state": out["kind"] + ":" + pos, "nontrivial": False}
     viol = []
 
